@@ -174,19 +174,54 @@ def toDictO {α κ ν} (eq : κ → κ → Bool) (key : α → Except Err κ) (e
   onError s e := emit s [.error e]
   onCompleted s := emit [] [.next s, .completed]
 
-/-! ### unhashable elements / keys (the code as it is)
-`to_set` passes the bound method `s.add` as `on_next`, `to_dict` executes `m[key] = element` outside its `try` blocks: for an
-unhashable value Python raises `TypeError` *inside the handler*, which nothing catches — it propagates to the emitter, the
-element is skipped, the subscriber is not told and the run goes on.  (Not a user callback, so outside C09; a deviation from the
-reference `set(xs)` / dict comprehension, which raise.)  `toSetO` / `toDictO` are these operators on hashable input. -/
+/-! ### unhashable elements / keys — **as repaired** (`fixes/C06_toset_todict_unhashable.patch`)
+`to_set`: `try: s.add(x) except Exception as ex: observer.on_error(ex); return`; `to_dict`: the same guard around
+`m[key] = element` (after both mappers).  An unhashable value makes Python raise `TypeError`; it is delivered as `on_error`
+at that element, like `set(xs)` / the dict comprehension raise.  `toSetO` / `toDictO` are these operators on hashable input. -/
+def setStepH {α} (hashable : α → Bool) (eq : α → α → Bool) (s : List α) (x : α) : Except Err (List α) :=
+  if hashable x then .ok (setAdd eq s x) else .error "TypeError"
+
 def toSetHO {α} (hashable : α → Bool) (eq : α → α → Bool) : Op α (List α) where
+  σ := List α
+  init := []
+  onNext s x :=
+    match setStepH hashable eq s x with          -- try: s.add(x)
+    | .error e => emit s [.error e]              -- except Exception as ex: observer.on_error(ex); return
+    | .ok s' => emit s' []
+  onError s e := emit s [.error e]
+  onCompleted s := emit s [.next s, .completed]
+
+def dictStepH {α κ ν} (hashable : κ → Bool) (eq : κ → κ → Bool) (key : α → Except Err κ) (elem : α → Except Err ν)
+    (m : List (κ × ν)) (x : α) : Except Err (List (κ × ν)) :=
+  match key x with
+  | .error e => .error e
+  | .ok k =>
+    match elem x with
+    | .error e => .error e
+    | .ok v => if hashable k then .ok (dictSet eq m k v) else .error "TypeError"   -- try: m[key] = element except: on_error
+
+def toDictHO {α κ ν} (hashable : κ → Bool) (eq : κ → κ → Bool) (key : α → Except Err κ) (elem : α → Except Err ν) :
+    Op α (List (κ × ν)) where
+  σ := List (κ × ν)
+  init := []
+  onNext s x :=
+    match dictStepH hashable eq key elem s x with
+    | .error e => emit s [.error e]
+    | .ok s' => emit s' []
+  onError s e := emit s [.error e]
+  onCompleted s := emit [] [.next s, .completed]
+
+/-! ### AsIs (before the repair): `s.add` was the `on_next` handler itself and `m[key] = element` was outside the `try` blocks:
+the `TypeError` propagated to the emitter, the element was skipped, the subscriber was not told and the run went on.
+Used only by the witness theorem `C06.to_set_unhashable_asis`. -/
+def toSetAsIsO {α} (hashable : α → Bool) (eq : α → α → Bool) : Op α (List α) where
   σ := List α
   init := []
   onNext s x := if hashable x then emit (setAdd eq s x) [] else ⟨s, [], some "TypeError"⟩
   onError s e := emit s [.error e]
   onCompleted s := emit s [.next s, .completed]
 
-def toDictHO {α κ ν} (hashable : κ → Bool) (eq : κ → κ → Bool) (key : α → Except Err κ) (elem : α → Except Err ν) :
+def toDictAsIsO {α κ ν} (hashable : κ → Bool) (eq : κ → κ → Bool) (key : α → Except Err κ) (elem : α → Except Err ν) :
     Op α (List (κ × ν)) where
   σ := List (κ × ν)
   init := []
